@@ -70,7 +70,7 @@ func TestC07e2e(t *testing.T) {
 	col := evd.New("C07", cfg)
 	defer col.Flush()
 	n := cfg.N(24, 800)
-	var pairs, unspec, dlPairs int64
+	var pairs, unspec, dlPairs, updated int64
 	for i := 0; i < n; i++ {
 		seed := cfg.CaseSeed("C07e2e", i)
 		if !cfg.Want(i, seed) {
@@ -136,6 +136,54 @@ func TestC07e2e(t *testing.T) {
 					}
 				}
 				col.Case(evd.FP("e2e", filters[s].String(), seed), true)
+			}
+			// a filter can be replaced: whatever is published afterwards is routed by
+			// the filter the subscription has now
+			for s := 0; s < nsubs; s++ {
+				if filters[s] == nil || r.Intn(2) == 0 {
+					continue
+				}
+				nf := e2eAST(r, r.Intn(3))
+				if _, err := e.Sub.UpdateSubscription(e.Ctx, &pubsubpb.UpdateSubscriptionRequest{Subscription: &pubsubpb.Subscription{Name: fmt.Sprintf("projects/p/subscriptions/s%d", s), Filter: nf.String()}, UpdateMask: &fieldmaskpb.FieldMask{Paths: []string{"filter"}}}); err != nil {
+					col.ViolationFor("C08", "rpc-update-rejects-sentence", fmt.Sprintf("UpdateSubscription rejected grammar sentence %q: %v", nf.String(), err), map[string]any{"filter": nf.String()})
+					continue
+				}
+				filters[s] = nf
+				updated++
+			}
+			resp3, err := e.Pub.Publish(e.Ctx, req)
+			if err != nil {
+				t.Fatalf("publish after updates: %v", err)
+			}
+			idx3 := map[string]int{}
+			for m, id := range resp3.MessageIds {
+				idx3[id] = m
+			}
+			for s := 0; s < nsubs; s++ {
+				if filters[s] == nil {
+					continue
+				}
+				pr, err := e.Sub.Pull(e.Ctx, &pubsubpb.PullRequest{Subscription: fmt.Sprintf("projects/p/subscriptions/s%d", s), MaxMessages: 100, ReturnImmediately: true})
+				if err != nil {
+					t.Fatalf("pull: %v", err)
+				}
+				got := map[int]bool{}
+				for _, rm := range pr.ReceivedMessages {
+					if m, ok := idx3[rm.Message.MessageId]; ok {
+						got[m] = true
+					}
+				}
+				for m := 0; m < nmsgs; m++ {
+					want := filters[s].Eval(attrs[m])
+					if want == ref.Unspec {
+						unspec++
+						continue
+					}
+					pairs++
+					if got[m] != (want == ref.True) {
+						col.Violation("routing-after-filter-update:"+fmt.Sprint(want), fmt.Sprintf("subscription whose filter is now %q: message with attributes %v delivered=%v, documented semantics say %v", filters[s].String(), attrs[m], got[m], want), map[string]any{"case_seed": seed, "filter": filters[s].String(), "attrs": attrs[m]})
+					}
+				}
 			}
 			// the same semantics on the other routing path: messages forwarded to a
 			// dead-letter topic are routed to its filtered subscriptions by their
@@ -209,11 +257,13 @@ func TestC07e2e(t *testing.T) {
 	col.Add("ev_e2e_routing_pairs_compared", pairs)
 	col.Add("ev_e2e_routing_pairs_unspecified", unspec)
 	col.Add("ev_e2e_dead_letter_routing_pairs_compared", dlPairs)
+	col.Add("ev_e2e_filters_replaced_by_update", updated)
 	col.Add("relevant_events", pairs+dlPairs)
 }
 
 var rpcVocab = []ref.Tok{
 	ref.Ident("attributes"), ref.Ident("hasPrefix"), ref.Ident("AND"), ref.Ident("OR"), ref.Ident("NOT"),
+	ref.Ident("and"), ref.Ident("Attributes"), ref.Ident("HASPREFIX"), ref.Ident("Not"),
 	ref.Ident("a"), ref.Str(""), ref.Str("a"), ref.P(":"), ref.P("."), ref.P("="), ref.P("!="), ref.P("("), ref.P(")"), ref.P(","), ref.P("-"),
 }
 
